@@ -24,6 +24,7 @@ from harness import compile_common as cc
 from harness.common import Ctx, MachineryError, Outcome, Violation
 
 D = os.path.join(common.SPECS, 'compile')
+PROCS = 14       # compilations side by side (each is one mostly single-threaded process)
 COMPAT, COMPAT_CFG = os.path.join(D, 'Compat.tla'), os.path.join(D, 'Compat.cfg')
 PIPE = os.path.join(D, 'Pipeline.tla')
 PTRACE, PTRACE_CFG = os.path.join(D, 'PipelineTrace.tla'), os.path.join(D, 'PipelineTrace.cfg')
@@ -123,19 +124,23 @@ def triple_specs(ctx: Ctx):
         alpha = [('CNOT', [0, 1]), ('CNOT', [1, 0]), ('H', [0]), ('CZ', [0, 1]), ('barrier', [0, 1]), ('measure', [1]), ('reset', [0])]
         if n == 3:
             alpha += [('CNOT', [0, 2]), ('CNOT', [2, 1]), ('barrier', [0, 2]), ('barrier', [0, 1, 2]), ('CCX', [0, 1, 2])]
-        seqs = [[a] for a in alpha] + [[a, b] for a in alpha for b in alpha]
-        if ctx.quick:
-            seqs = [[a] for a in alpha] + rng.sample([[a, b] for a in alpha for b in alpha], 8 if n == 2 else 12)
+        singles = [[a] for a in alpha]
+        pairs_ = [[a, b] for a in alpha for b in alpha]
+        if ctx.quick:       # length 1 fully, length 2 sampled
+            pairs_ = rng.sample(pairs_, 3 if n == 2 else 4)
         placements = [None] + [list(p) for p in itertools.permutations(range(N), n)]
         for mask in range(2 ** len(pairs)):
             edges = [list(p) for i, p in enumerate(pairs) if mask >> i & 1]
-            for gates in (['CNOT', 'H'], ['CZ', 'H', 'CCX'], ['CNOT', 'H', 'CCX', 'BARRIERS']):
-                for ops in seqs:
+            for gi, gates in enumerate((['CNOT', 'H'], ['CZ', 'H', 'CCX'], ['CNOT', 'H', 'CCX', 'BARRIERS'])):
+                for ops in singles + pairs_:
+                    # the third gate set differs from the first only for barriers (quick tier: only those op lists)
+                    if ctx.quick and gi == 2 and not any(o[0] == 'barrier' for o in ops):
+                        continue
                     for pl in placements:
                         out.append({'N': N, 'n': n, 'edges': edges, 'gates': gates, 'ops': ops, 'placement': pl})
     n_exh = len(out)
     # random: up to 5 qudits
-    for _ in range(1500 if ctx.quick else 12000):
+    for _ in range(700 if ctx.quick else 12000):
         N = rng.randint(2, 5)
         n = rng.randint(1, N)
         edges = set()
@@ -211,15 +216,15 @@ def compile_cases(ctx: Ctx):
         N = w + extra
         cases.append({'kind': 'circuit', 'radix': 2, 'n': w, 'ops': directed_ops(w, rich), 'level': lvl,
                       'model': {'n': N, 'edges': cc.topo_edges(topo, N, rng), 'gates': cc.GATESETS[gs], 'radix': 2, 'topo': topo, 'gs': gs}})
-    nrand = 22 if ctx.quick else 200
+    nrand = 15 if ctx.quick else 200
     for _ in range(nrand):
         n = rng.choice([1, 2, 3, 3, 4]) if ctx.quick else rng.choice([1, 2, 3, 4, 4, 5, 6])
         level = rng.choice([1, 1, 1, 2]) if ctx.quick else (rng.choice([1, 2, 3, 4]) if n <= 4 else rng.choice([1, 2]))
         ops = cc.random_ops(rng, n, 2, rng.randint(2, 4 + n), nonexact=True)
         cases.append({'kind': 'circuit', 'radix': 2, 'n': n, 'ops': ops, 'level': level, 'model': cc.model_spec(rng, n, gatesets=gsq)})
-    nsyn = 8 if ctx.quick else 60
+    nsyn = 6 if ctx.quick else 60
     for i in range(nsyn):
-        kind = ['unitary', 'state', 'system', 'unitary'][i % 4]
+        kind = ['unitary', 'state', 'system'][i % 3]
         n = rng.choice([1, 2, 2]) if ctx.quick else rng.choice([1, 2, 2, 3])
         c = input_case(kind, n, rng)
         c['level'] = 1 if ctx.quick or kind != 'unitary' else rng.choice([1, 2, 3])
@@ -240,11 +245,20 @@ def finish_cases(cases, rng, quick):
 
 
 def cex_cases(cex, rng, quick):
-    """Concrete inputs for the design-level counterexamples TLC found in Pipeline.tla: one group per (kind, clause, fits, w),
-    replayed at the lowest level it occurs at (all levels <= 2 plus one higher in the thorough tier)."""
+    """Concrete inputs for the design-level counterexamples TLC found in Pipeline.tla: one group per (kind, clause, fits, w)
+    (quick tier: per (kind, clause, fits), at the smallest width it occurs at), replayed at the lowest level it occurs at
+    (plus one higher level in the thorough tier)."""
     groups = {}
     for kind, level, clause, w, fits, gsi in cex:
         groups.setdefault((kind, clause, fits, w), {}).setdefault(level, set()).add(gsi)
+    if quick:
+        first = {}
+        for (kind, clause, fits, w) in sorted(groups):
+            # (width 2 where possible: a one-qudit target never needs an entangler, a three-qudit one costs minutes)
+            cur = first.get((kind, clause, fits))
+            if cur is None or (cur[3] != 2 and w == 2):
+                first[(kind, clause, fits)] = (kind, clause, fits, w)
+        groups = {g: groups[g] for g in first.values()}
     out = []
     for (kind, clause, fits, w), lv in sorted(groups.items()):
         levels = sorted(lv)[:1] if quick else sorted(lv)[:2]
@@ -255,7 +269,7 @@ def cex_cases(cex, rng, quick):
             N = w if fits else w + 1
             model = {'n': N, 'edges': cc.topo_edges('line', N), 'gates': cc.GATESETS[gs], 'radix': 2, 'topo': 'line', 'gs': gs}
             if kind == 'circuit':
-                for rich in (False, True):
+                for rich in ((True,) if quick else (False, True)):
                     out.append({'kind': 'circuit', 'radix': 2, 'n': w, 'ops': directed_ops(w, rich), 'level': level, 'model': model,
                                 'cex': [kind, level, clause, w, fits]})
             else:
@@ -312,9 +326,12 @@ def model_check(ctx: Ctx, built, box):
             json.dump(built, f)
         cfg = os.path.join(ctx.scratch, 'PipelineBuilt.cfg')
         with open(cfg, 'w') as f:
-            f.write('CONSTANTS\n  UseBuilt = TRUE\n  KindsUsed = {"circuit", "unitary", "state", "system"}\n  LevelsUsed = {1, 2, 3, 4}\n'
+            # quick tier: three of the six gate-set classes -- general single-qudit gate (CNOT+U3), ZX pair (CZ+RZ+SX), no single-qudit
+            # gate at all (CNOT) -- which between them take every branch of the workflow (checked below: REQUIRED_ACTIONS)
+            f.write('CONSTANTS\n  UseBuilt = TRUE\n  KindsUsed = {"circuit", "unitary", "state", "system"}\n  LevelsUsed = {1, 2, 3, 4}\n  GSUsed = %s\n'
+                    % ('{1, 2, 6}' if ctx.quick else '{1, 2, 3, 4, 5, 6}') +
                     'SPECIFICATION Spec\nINVARIANT TypeOK\nINVARIANT NeverStuck\nINVARIANT EndsExecutable\nPROPERTY Terminates\nCHECK_DEADLOCK FALSE\n')
-        box['r'] = common.tlc(PIPE, cfg, env={'BUILT_FILE': path}, coverage=True, workers=6, timeout=1500, scratch=ctx.scratch, heap='6g')
+        box['r'] = common.tlc(PIPE, cfg, env=dict(cc.JVM_ENV, BUILT_FILE=path), coverage=True, workers=4, timeout=1500, scratch=ctx.scratch, heap='6g')
     except BaseException as e:      # noqa
         box['exc'] = e
 
@@ -326,6 +343,55 @@ def key_of_out(case, clause, extra):
     return k
 
 
+# --------------------------------------------------------------------------- oracle self-test (corrupted observations)
+def corrupted_compat_cases(compat):
+    """Corrupted copies of an accepted (output, model) observation with the clause Compat.tla must answer for each."""
+    import copy
+    out = []
+    for c in compat:
+        multi = [i for i, o in enumerate(c['ops']) if len(o['loc']) >= 2 and not o['placeholder']]
+        if not (c['width'] == c['mwidth'] >= 3 and multi and c['verdict']):
+            continue
+        k = copy.deepcopy(c)
+        k['width'] -= 1
+        k['radixes'] = k['radixes'][:-1]
+        k['placement'] = k['placement'][:-1]
+        k['ops'] = [o for o in k['ops'] if max(o['loc']) < k['width']] or [{'gate': 'none', 'loc': [0], 'placeholder': True}]
+        k['has_verdict'] = False
+        out.append(('output-narrower-than-the-machine', k, 'width'))
+        k = copy.deepcopy(c)
+        k['radixes'][0] = 3
+        k['has_verdict'] = False
+        out.append(('output-radix-changed', k, 'radix'))
+        k = copy.deepcopy(c)
+        k['ops'][multi[0]]['gate'] = 'NotAGate/x'
+        k['has_verdict'] = False
+        out.append(('gate-renamed', k, 'gate-not-native'))
+        pairs = [[a, b] for a in range(c['width']) for b in range(a + 1, c['width']) if [a, b] not in c['edges'] and [b, a] not in c['edges']]
+        if pairs:
+            k = copy.deepcopy(c)
+            k['ops'][multi[0]]['loc'] = pairs[0] + [q for q in range(c['width']) if q not in pairs[0]][:len(k['ops'][multi[0]]['loc']) - 2]
+            k['has_verdict'] = False
+            out.append(('entangler-moved-to-uncoupled-qudits', k, 'uncoupled-location'))
+        k = copy.deepcopy(c)
+        k['verdict'] = not k['verdict']
+        out.append(('is_compatible-answer-flipped', k, 'is_compatible-verdict'))
+        if len(out) >= 5:
+            break
+    return out
+
+
+def triples_part(ctx: Ctx, rp, box):
+    """Part 2 (is_compatible): Compat.tla judges the observed triples (TLC runs beside the compilations; the triples
+    themselves are observed before any thread or child process exists)."""
+    try:
+        tv, s, t_, _ = exact.par_validate(COMPAT, COMPAT_CFG, [{k: v for k, v in c.items() if k != 'src'} for c in box['triples']], ctx.scratch,
+                                          groups=2 if rp is None else 1, chunk=3000, env=cc.JVM_ENV)
+        box.update(tv=tv, states=s, trans=t_)
+    except BaseException as e:      # noqa
+        box['exc'] = e
+
+
 def run(ctx: Ctx) -> Outcome:
     common.use_repo()
     out = Outcome('C02')
@@ -333,52 +399,41 @@ def run(ctx: Ctx) -> Outcome:
     states = trans = 0
     cov = {}
     specs = []
+    decided = {'width': 0, 'radix': 0, 'gate-not-native': 0, 'uncoupled-location': 0, 'is_compatible-verdict': 0}
+
+    # ---- part 2: is_compatible -- observe now, judge in the background
+    tbox = {}
+    tth = None
+    if rp is None or rp.get('what') == 'triple':
+        if rp is None:
+            tbox['specs'], tbox['n_exh'] = triple_specs(ctx)
+        else:
+            tbox['specs'], tbox['n_exh'] = [rp['triple']], 0
+        tbox['triples'] = [observe_triple(t) for t in tbox['specs']]
+    built = built_programs()
 
     # ---- part 3a: model-check the as-built workflow (in the background)
     box = {}
     th = None
-    built = built_programs()
     if rp is None:
         th = threading.Thread(target=model_check, args=(ctx, built, box))
         th.start()
-
-    # ---- part 2: is_compatible
-    if rp is None or rp.get('what') == 'triple':
-        if rp is None:
-            specs, n_exh = triple_specs(ctx)
-        else:
-            specs, n_exh = [rp['triple']], 0
-        triples = [observe_triple(t) for t in specs]
-        tv, s, t_, _ = exact.par_validate(COMPAT, COMPAT_CFG, [{k: v for k, v in c.items() if k != 'src'} for c in triples], ctx.scratch, groups=8, chunk=3000)
-        states += s
-        trans += t_
-        for idx, _st, clause, extra in tv:
-            c = triples[idx]
-            direction, cause = DIRECTION[extra[0]], CAUSE[extra[1]]
-            key = {'clause': clause, 'input': 'is_compatible-query', 'direction': direction, 'cause': cause, 'features': c['features']}
-            if c['err']:
-                key['raised'] = True
-            detail = ('MachineModel(%d, edges=%s, gates=%s).is_compatible(circuit(%d qudits, ops=%s), placement=%s) = %s, the definition says %s '
-                      '(cause named by the implementation-shaped reading: %s)%s'
-                      % (c['mwidth'], c['src']['edges'], c['src']['gates'], c['width'], c['src']['ops'], c['src']['placement'], c['verdict'],
-                         not c['verdict'], cause, ' raised ' + c['err'] if c['err'] else ''))
-            out.violations.append(Violation('C02', clause, key, detail, {'what': 'triple', 'triple': c['src']}))
-        feat = {}
-        for c in triples:
-            feat[c['features']] = feat.get(c['features'], 0) + 1
-        cov['is_compatible'] = {'triples': len(triples), 'exhaustive_part': n_exh, 'by_feature': feat,
-                                'disagreements': len(tv), 'verdict_true': sum(c['verdict'] for c in triples)}
+    if 'triples' in tbox:
+        tth = threading.Thread(target=triples_part, args=(ctx, rp, tbox))
+        tth.start()
 
     # ---- part 1: compile
     keep = []
-    timeouts = raised = 0
+    timeouts = raised = rejected = 0
+    selftest = {}
+    cpu = 0.0
     if rp is None or rp.get('what') == 'compile':
         if rp is None:
             cases, rng = compile_cases(ctx)
             finish_cases(cases, rng, ctx.quick)
         else:
             cases, rng = [rp['case']], random.Random(0)
-        results = cc.run_compile_cases(cases, procs=10)
+        results = cc.run_compile_cases(cases, procs=PROCS)
         # ---- part 3b: replay the design-level counterexamples of the model on the real code
         cex = []
         if th is not None:
@@ -397,7 +452,7 @@ def run(ctx: Ctx) -> Outcome:
             more = finish_cases(cex_cases(cex, rng, ctx.quick), rng, ctx.quick)
             for i, c in enumerate(more):
                 c['id'] = 'cex%d' % i
-            results += cc.run_compile_cases(more, procs=10)
+            results += cc.run_compile_cases(more, procs=PROCS)
             cases = cases + more
             classes = sorted({(k, l, cl, w, f) for k, l, cl, w, f, _ in cex})
             for k in sorted({(k, cl, f) for k, _, cl, _, f in classes}):
@@ -415,10 +470,12 @@ def run(ctx: Ctx) -> Outcome:
                 continue
             if r['status'] == 'harness-error':
                 raise MachineryError('case %s failed inside the harness: %s\n%s' % (c.get('id'), r['exc'], r.get('tb')))
-            if r['status'] == 'raised':
-                raised += 1
-                out.notes.append('NOTE property=C02 case %s (%s radix %d n=%d level=%d): compile() raised %s at %s -- no output to judge (C01 / C03 report crashes)'
-                                 % (c.get('id'), c['kind'], c['radix'], c['n'], c['level'], r['excline'][:120], r['where']))
+            cpu += r.get('cpu', 0)
+            if r['status'] in ('raised', 'rejected'):
+                raised += r['status'] == 'raised'
+                rejected += r['status'] == 'rejected'
+                out.notes.append('NOTE property=C02 case %s (%s radix %d n=%d level=%d): compile() %s %s at %s -- no output to judge (C01 / C03 decide failed compilations)'
+                                 % (c.get('id'), c['kind'], c['radix'], c['n'], c['level'], r['status'], r['excline'][:120], r['where']))
                 continue
             keep.append((c, r))
             for o in r['results']:
@@ -426,17 +483,46 @@ def run(ctx: Ctx) -> Outcome:
                 cc_['has_verdict'] = True
                 compat.append(cc_)
                 owner.append((c, r, o))
+                decided['width'] += 1
+                decided['radix'] += 1
+                decided['gate-not-native'] += any(not x['placeholder'] for x in o['ops'])
+                decided['uncoupled-location'] += any(len(x['loc']) >= 2 and not x['placeholder'] for x in o['ops'])
+                decided['is_compatible-verdict'] += 1
             ptr += [(c, t) for t in trace_cases(c, r)]
+        # ---- part 3c: trace validation + as-built = transcription (beside the Compat run)
+        pcases = [t for _, t in ptr] + [dict(b, what='program') for b in built]
+        pbox = {}
+
+        def traces_part():
+            try:
+                pbox['r'] = exact.par_validate(PTRACE, PTRACE_CFG, pcases, ctx.scratch, groups=2, chunk=200, env=cc.JVM_ENV)
+            except BaseException as e:      # noqa
+                pbox['exc'] = e
+        pth = threading.Thread(target=traces_part)
+        pth.start()
         if compat:
-            cv, s, t_, _ = exact.par_validate(COMPAT, COMPAT_CFG, compat, ctx.scratch, groups=4, chunk=400)
+            bad = corrupted_compat_cases(compat) if rp is None else []
+            cv, s, t_, _ = exact.par_validate(COMPAT, COMPAT_CFG, compat + [c for _, c, _ in bad], ctx.scratch, groups=1, chunk=400, env=cc.JVM_ENV)
             states += s
             trans += t_
+            got = {}
             for idx, _st, clause, extra in cv:
+                if idx >= len(compat):
+                    got.setdefault(idx - len(compat), clause)
+            for i, (name, _c, want) in enumerate(bad):
+                selftest[name] = got.get(i, 'ACCEPTED')
+                if got.get(i) != want:
+                    raise MachineryError('C02 oracle self-test: corrupted observation %r was judged %r, expected %r' % (name, got.get(i, 'accepted'), want))
+            for idx, _st, clause, extra in cv:
+                if idx >= len(compat):
+                    continue
                 c, r, o = owner[idx]
                 native = set(compat[idx]['gateset'])
                 key = key_of_out(c, clause, extra)
                 if clause == 'gate-not-native':
-                    key['offending'] = ','.join(sorted({x['gate'] for x in o['ops'] if not x['placeholder'] and x['gate'] not in native}))
+                    off = [x for x in o['ops'] if not x['placeholder'] and x['gate'] not in native]
+                    key['offending'] = ','.join(sorted({x['gate'] for x in off}))
+                    key['offending_arity'] = 'single-qudit' if all(len(x['loc']) == 1 for x in off) else 'multi-qudit'
                 if clause == 'is_compatible-verdict':
                     key.update(input='compile-output', direction=DIRECTION[extra[0]], cause=CAUSE[extra[1]])
                     key.pop('level'), key.pop('gateset'), key.pop('wider'), key.pop('n'), key.pop('kind')
@@ -444,9 +530,10 @@ def run(ctx: Ctx) -> Outcome:
                           % (c['kind'], c['n'], {k: v for k, v in c['model'].items() if k != 'gs'}, c['level'], o['width'], o['gate_counts'], o['pi'], o['pf'], clause,
                              ' ' + str(extra) if extra else '', json.dumps({k: c[k] for k in ('ops', 'table', 'state', 'pairs') if k in c})[:700]))
                 out.violations.append(Violation('C02', clause, key, detail, {'what': 'compile', 'case': c}))
-        # ---- part 3c: trace validation + as-built = transcription
-        pcases = [t for _, t in ptr] + [dict(b, what='program') for b in built]
-        pv, s, t_, _ = exact.par_validate(PTRACE, PTRACE_CFG, pcases, ctx.scratch, groups=4, chunk=200)
+        pth.join()
+        if 'exc' in pbox:
+            raise pbox['exc']
+        pv, s, t_, _ = pbox['r']
         states += s
         trans += t_
         drift = {}
@@ -462,6 +549,34 @@ def run(ctx: Ctx) -> Outcome:
             if drift[clause] <= 4:
                 out.notes.append(msg)
         cov['pipeline_traces'] = {'traces': len(ptr), 'events': sum(len(t['ev']) for _, t in ptr), 'programs_compared': len(built), 'drift': drift}
+    elif th is not None:
+        th.join()
+
+    # ---- part 2, collected
+    if tth is not None:
+        tth.join()
+        if 'exc' in tbox:
+            raise tbox['exc']
+        specs, triples, tv = tbox['specs'], tbox['triples'], tbox['tv']
+        states += tbox['states']
+        trans += tbox['trans']
+        decided['is_compatible-verdict'] += len(triples)
+        for idx, _st, clause, extra in tv:
+            c = triples[idx]
+            direction, cause = DIRECTION[extra[0]], CAUSE[extra[1]]
+            key = {'clause': clause, 'input': 'is_compatible-query', 'direction': direction, 'cause': cause, 'features': c['features']}
+            if c['err']:
+                key['raised'] = True
+            detail = ('MachineModel(%d, edges=%s, gates=%s).is_compatible(circuit(%d qudits, ops=%s), placement=%s) = %s, the definition says %s '
+                      '(cause named by the implementation-shaped reading: %s)%s'
+                      % (c['mwidth'], c['src']['edges'], c['src']['gates'], c['width'], c['src']['ops'], c['src']['placement'], c['verdict'],
+                         not c['verdict'], cause, ' raised ' + c['err'] if c['err'] else ''))
+            out.violations.append(Violation('C02', clause, key, detail, {'what': 'triple', 'triple': c['src']}))
+        feat = {}
+        for c in triples:
+            feat[c['features']] = feat.get(c['features'], 0) + 1
+        cov['is_compatible'] = {'triples': len(triples), 'exhaustive_part': tbox['n_exh'], 'by_feature': feat,
+                                'disagreements': len(tv), 'verdict_true': sum(c['verdict'] for c in triples)}
 
     by = {'kind': {}, 'level': {}, 'gateset': {}, 'topo': {}, 'wider': 0}
     distinct = set()
@@ -477,17 +592,19 @@ def run(ctx: Ctx) -> Outcome:
     out.coverage.update({
         'states': states, 'transitions': trans,
         'traces_validated_against_impl': len(keep) + cov.get('pipeline_traces', {}).get('traces', 0),
-        'evaluations': len(keep) + timeouts + raised + ntr,
+        'evaluations': len(keep) + timeouts + raised + rejected + ntr,
         'distinct_nontrivial': len(distinct) + len({common.digest(t) for t in specs}),
         'rule': 'compile cases: one real compile() call (input, model, level, workers, schedule) with its output judged by Compat.tla and its '
                 'recorded pass/predicate trace validated by PipelineTrace.tla; non-trivial = output has a multi-qudit gate, or the input is a '
                 'unitary/state/system, or the machine is wider than the input; distinct by hash of (input, model, level).  is_compatible '
                 'triples: distinct by hash of (circuit ops, model, placement), all non-trivial (every triple has at least one operation).',
-        'compile_by': by, 'compile_cases': len(keep), 'timeouts': timeouts, 'raised': raised,
+        'compile_by': by, 'compile_cases': len(keep), 'timeouts': timeouts, 'raised': raised, 'rejected': rejected, 'compile_cpu_s': round(cpu, 1),
+        'clause_decisions': decided, 'oracle_selftest': selftest,
         'samples': ([{'case': c, 'output': cc.short_result(r)} for c, r in keep[:2]] + [{'triple': t} for t in specs[len(specs) // 2:len(specs) // 2 + 1]]) or [{'replay': True}],
         'exhaustive': False,
-        'exhaustive_part': 'is_compatible: all graphs on 3 qudits x all placements x op lists (length 1 fully, length 2 %s) over a 7/12-op alphabet x 3 gate sets; '
-                           'Pipeline.tla: complete state graph for 4 kinds x 4 levels x 6 gate-set classes x all consistent abstract inputs' % ('sampled' if ctx.quick else 'fully'),
+        'exhaustive_part': 'is_compatible: all graphs on 3 qudits x all placements x op lists (length 1 fully, length 2 %s) over a 7/12-op alphabet x 3 gate sets%s; '
+                           'Pipeline.tla: complete state graph for 4 kinds x 4 levels x %d gate-set classes x all consistent abstract inputs'
+                           % (('sampled', ' (the gate set that declares barriers native: only op lists with a barrier)', 3) if ctx.quick else ('fully', '', 6)),
         'checker_cmd': 'tlc Compat.tla (batch); tlc -coverage 1 -config PipelineBuilt.cfg Pipeline.tla (BUILT_FILE = programs extracted from build_workflow); tlc PipelineTrace.tla (batch)',
         'trusted_base': ['TLC', 'harness/compile_common.py (gate naming, builders, Workflow.run / PassPredicate.__call__ recorder)', 'harness/sim.py + simcompile.py',
                          'pass contracts of specs/compile/PipelineDefs.tla (assumptions about passes decided by C08-C11)'],
